@@ -1,1 +1,73 @@
-From Verif Require Import Base Tie.
+(* C04 -- every design-matrix column holds exactly what its label says.
+   Model: Model/Design.v (set_data_comp / set_data_term / set_data_gterm mirror Variable / Call /
+   Term / GroupSpecificTerm .set_data and .labels; row_kron mirrors get_interaction_matrix).
+   A labelled row pairs each column label with the entry of that column on one observation. *)
+From Verif Require Import Base Coding Contrasts Frame Eval Design DesignStructure DesignCoding.
+From Verif Require Tie.
+Local Close Scope Qc_scope.
+Local Close Scope Q_scope.
+
+(* the spec-level product of two labelled rows: labels are joined, entries multiplied,
+   the LEFT factor varies slowest *)
+Definition lprod_spec (sep : string) (a b : list (string * cell)) : list (string * cell) :=
+  flat_map (fun p => map (fun q => ((fst p ++ sep ++ fst q)%string, cmul (snd p) (snd q))) b) a.
+
+Lemma lprod_is_spec sep a b : lprod sep a b = lprod_spec sep a b.
+Proof.
+  unfold lprod, lprod_spec. induction a as [|[la va] a IH]; simpl; [reflexivity|].
+  f_equal; [|exact IH]. apply map_ext. intros [lb vb]. reflexivity.
+Qed.
+
+(* interaction of any arity, any column counts: labels and entries stay aligned; in particular
+   labels and columns are equal in number *)
+Theorem C04_labelled_product :
+  forall sep (ls : list (list string)) (xs : list (list cell)) l0 x0,
+    List.length l0 = List.length x0 ->
+    Forall2 (fun l x => List.length l = List.length x) ls xs ->
+    combine (label_product (l0 :: ls) sep) (fold_left row_kron xs x0) =
+    fold_left (lprod sep) (zip_with (@combine string cell) ls xs) (combine l0 x0).
+Proof. exact combine_kron_fold. Qed.
+
+Theorem C04_labels_columns_count :
+  forall sep (ls : list (list string)) (xs : list (list cell)) l0 x0,
+    List.length l0 = List.length x0 ->
+    Forall2 (fun l x => List.length l = List.length x) ls xs ->
+    List.length (label_product (l0 :: ls) sep) = List.length (fold_left row_kron xs x0).
+Proof. exact label_product_length_fold. Qed.
+
+(* a treatment-coded categorical component: the column labelled name[l] is 1 exactly on the rows
+   whose value is l (reference row: all zeros; full coding: one column per level) *)
+Theorem C04_treatment_indicator :
+  forall t spans nrows dc cm ref,
+    tc_kind t = KCategoric ->
+    set_data_comp t spans nrows = Ok dc ->
+    dc_contrast dc = Some cm ->
+    comp_encoding t = Treatment ref ->
+    NoDup (dc_levels dc) ->
+    exists num o d,
+      categoric_data (tc_value t) = Ok (num, o, d) /\
+      forall i ox, nth_error d i = Some ox ->
+                   comp_lrow i dc = map (fun l => (comp_label t l, oind ox l)) (clabels cm).
+Proof. exact set_data_comp_treatment_lrow. Qed.
+
+(* a whole term of numeric and treatment-coded components: on every row the labelled row of the
+   term is the left-to-right labelled product of the labelled rows of its components *)
+Theorem C04_term_labels_columns :
+  forall nrows name cs s dt,
+    Forall plain_comp cs ->
+    set_data_term nrows (TTTerm name cs) s = Ok dt ->
+    exists d0 rest labs,
+      dt_comps dt = d0 :: rest /\ dt_labels dt = Some labs /\
+      forall i, Forall (fun d => i < List.length (dc_rows d)) (dt_comps dt) ->
+        combine labs (nth i (dt_rows dt) []) =
+        fold_left (lprod ":") (map (comp_lrow i) rest) (comp_lrow i d0) /\
+        List.length labs = List.length (nth i (dt_rows dt) []).
+Proof. exact set_data_term_plain_lrow. Qed.
+
+(* levels of unordered data are sorted and duplicate-free, declared orders are kept *)
+Theorem C04_levels_nodup : forall num l, NoDup (sort_levels num l).
+Proof. exact sort_levels_NoDup. Qed.
+
+Print Assumptions C04_labelled_product.
+Print Assumptions C04_treatment_indicator.
+Print Assumptions C04_term_labels_columns.
